@@ -22,7 +22,20 @@ ASSUMPTIONS_TCB = [
 ]
 
 PROPS = {}
-TWINS = {}     # verus fn label -> kani harness that searches for a concrete failing input of the same obligation
+# verus fn label -> kani harness that searches for a concrete failing input of the same obligation (the harness states the same
+# clause on the real crate; if it fails too, its counterexample is replayed natively and attached to the VIOLATION)
+TWINS = {
+    'read::reader::Reader::read_initial_length': 'k_prim_slice_initial_length',
+    'read::reader::Reader::read_address': 'k_prim_slice_sized',
+    'read::reader::Reader::read_sized_offset': 'k_prim_slice_sized',
+    'read::reader::Reader::read_word': 'k_prim_slice_word',
+    'read::reader::Reader::read_offset': 'k_prim_slice_word',
+    'read::reader::Reader::read_length': 'k_prim_slice_word',
+    'leb128::read::unsigned': 'k_leb_uleb_decode_spec',
+    'leb128::read::signed': 'k_leb_sleb_decode_spec',
+    'leb128::read::u16': 'k_leb_u16_decode_spec',
+    'leb128::read::skip': 'k_leb_skip_spec_b12',
+}
 
 # batches that are wired into checks (a batch under construction is simply not listed here yet)
 READY = ['core', 'eslice', 'op_eval', 'cfi_entries', 'cfi_uctx', 'cfi_uctx_link', 'line_hdr', 'attrs', 'units', 'dwarf_ranges', 'index', 'relocate',
